@@ -4,7 +4,7 @@ Decided from the *derived* serde code (the resolved program), not from attribute
 generated `Serialize::serialize` writes and the keys the generated visitor accepts / requires /
 defaults are read from the MIR of the derive output."""
 from riolib.core import Callee, MissingAnchor, span_line
-from riolib.prov import Prov, show, mentions, walk
+from riolib.prov import Prov, show, mentions, walk, mentions_field
 from riolib import types as T
 
 THOROUGH_CONFIGS = ['dot']
@@ -19,6 +19,13 @@ ROOTS = ["action::Action", "http::request::Request"]
 FOREIGN_LEAVES_OK = {
     "std::string::String", "std::option::Option", "std::vec::Vec", "linked_hash_set::LinkedHashSet", "std::net::IpAddr",
     "chrono::DateTime", "chrono::Utc", "std::alloc::Global", "std::hash::RandomState", "std::collections::hash_map::RandomState",
+}
+
+
+# skip_serializing_if predicates that are true exactly for the Default value of the field type
+SKIP_PREDICATES_OK = {
+    "std::option::Option::is_none", "std::vec::Vec::is_empty", "std::string::String::is_empty", "std::collections::HashMap::is_empty",
+    "std::collections::BTreeMap::is_empty", "std::collections::HashSet::is_empty", "linked_hash_set::LinkedHashSet::is_empty", "slice::is_empty", "str::is_empty",
 }
 
 
@@ -40,6 +47,7 @@ class Model:
         self.defaulted = []
         self.kind = F.adt(adt)["kind"]
         self.untagged_order = []
+        self.skip_predicates = {}  # key -> callee key of the predicate guarding skip_field
         self._build()
 
     def _build(self):
@@ -68,6 +76,16 @@ class Model:
                         self.variants_written.append(k[1])
                 elif self.kind == "enum" and cal.name == "serialize" and is_trait(cal.def_trait, "Serialize") and cal.adt:
                     self.untagged_order.append(cal.adt)
+        if self.ser is not None and self.skipped:
+            from riolib.sym import Sym
+            self.skip_paths = []  # (skipped keys, [(predicate key, outcome, args)])
+            try:
+                for p in Sym(self.ser, copies=False, max_paths=60000).paths():
+                    skipped = [e[2][1][1] for e in p.events if e[0] == "call" and e[1].rsplit("::", 1)[1] == "skip_field" and len(e[2]) >= 2 and e[2][1][0] == "const"]
+                    conds = [(a[1], v, a[2]) for a, v in p.conds if a[0] == "call"]
+                    self.skip_paths.append((skipped, conds))
+            except Exception:
+                self.skip_paths = None
         # the visitor bodies hang below `deserialize` in the def path
         if self.de is not None:
             prefix = self.de.path
@@ -149,6 +167,22 @@ def r06(ctx):
                 for k in sorted(m.skipped):
                     ok = k not in m.required
                     r.ob("keys:%s:conditional:%s" % (short, k), ok, m.ser.site, "conditionally written key `%s` is %s on read" % (k, "defaulted" if ok else "required"))
+                    preds = set()
+                    fld = key_to_field.get(k)
+                    for skipped_keys, conds in (getattr(m, "skip_paths", None) or []):
+                        if k not in skipped_keys:
+                            continue
+                        for pk, outcome, args_ in conds:
+                            if fld is not None and any(mentions_field(x, fld, a) for x in args_):
+                                name = pk
+                                if pk == "std::option::Option::is_some" and outcome == 0:
+                                    name = "std::option::Option::is_none"  # the engine normalises is_none to !is_some
+                                elif outcome == 0:
+                                    name = "!" + pk
+                                preds.add(name)
+                    okp = bool(preds) and all(pk in SKIP_PREDICATES_OK for pk in preds)
+                    r.ob("keys:%s:conditional:%s:predicate" % (short, k), okp, m.ser.site,
+                         "key `%s` is skipped under %s: %s" % (k, sorted(str(x) for x in preds), "true only for the value the reader defaults to" if okp else "not one of the reviewed predicates whose truth implies the default value (a value such as Some(false) may be dropped on write and read back as the default)"))
             elif m.kind == "enum" and not m.untagged_order:
                 vw = sorted(set(m.variants_written))
                 va = sorted(set(m.accepted))
